@@ -558,4 +558,4 @@ func c11Gen(tier string, rng *rand.Rand, emit func(string)) map[string]interface
 	}
 }
 
-func init() { register("C11", &Prop{Gen: c11Gen, Run: c11Run, CaseTimeout: 10 * time.Second}) }
+func init() { register("C11", &Prop{Gen: c11Gen, Run: c11Run, CaseTimeout: 5 * time.Second}) }
